@@ -635,8 +635,12 @@ class RDD:
         >>> len(a)
         3
         """
-        self.context.runJob(self, lambda tc, x: [f(xx) for xx in x],
-                            resultHandler=None)
+        def task(tc, x):
+            # what f returns is not part of the result of the job
+            for xx in x:
+                f(xx)
+
+        self.context.runJob(self, task, resultHandler=None)
 
     def foreachPartition(self, f):
         """applies ``f`` to every partition
@@ -647,8 +651,15 @@ class RDD:
         :param f: Apply a function to every partition.
         :rtype: None
         """
-        self.context.runJob(self, lambda tc, x: f(x),
-                            resultHandler=None)
+        def task(tc, x):
+            # what f returns (a generator, if f is one) is consumed here
+            # and is not part of the result of the job
+            result = f(x)
+            if hasattr(result, '__next__'):
+                for _ in result:
+                    pass
+
+        self.context.runJob(self, task, resultHandler=None)
 
     def fullOuterJoin(self, other, numPartitions=None):
         """returns the full outer join of two RDDs
